@@ -121,11 +121,12 @@ func checkC11(c *Check) {
 }
 
 func checkC05(c *Check) {
-	c.Explain = "Decides only two necessary structural conditions of C05 on the 16 AST-enabled instantiations and peg.peg.go: R-rune (node.print quotes string([]rune(buffer)[n.begin:n.end]); no string is indexed by an offset anywhere in the runtime, so multi-byte input cannot shift the quoted text) and R-route (PrintSyntaxTree/WriteSyntaxTree/PrettyPrintSyntaxTree print exactly the tree returned by AST(), with the parser's own Buffer, and name each node by rul3s[its own pegRule]). NOT decided, and said so: that the stack loop in AST() reconstructs every nesting correctly — its correctness depends on order relations among token bounds along the whole token sequence, and the only structural proxy would be the spelling of its comparisons (a frozen-fragment rule this design refuses to arm)."
+	c.Explain = "Decides only two necessary structural conditions of C05 on the 16 AST-enabled instantiations and peg.peg.go: R-rune (node.print quotes string([]rune(buffer)[n.begin:n.end]); no string is indexed by an offset anywhere in the runtime, so multi-byte input cannot shift the quoted text) and R-route (PrintSyntaxTree/WriteSyntaxTree/PrettyPrintSyntaxTree print exactly the tree returned by AST(), with the parser's own Buffer, and name each node by rul3s[its own pegRule]). R-adopt-condition (the adoption test of AST()'s stack loop only compares four offsets, so it is decided over all their orderings: a stacked token is adopted exactly when its span lies within the new token's, equal spans included). NOT decided, and said so: that the rest of the stack loop in AST() (pointer surgery, order of siblings) reconstructs every nesting correctly — its correctness depends on order relations among token bounds along the whole token sequence, and the only structural proxy would be the spelling of its comparisons (a frozen-fragment rule this design refuses to arm)."
 	c.Assume = []string{"the token list is the post-order record of the derivation (C03)"}
 	c.Trusted = []string{"text/template/parse", "go/types, go/ssa (x/tools v0.50.0)"}
 	forEachRuntime(c, func(a *aggregator, v *rtView) {
 		rtRune(a, v)
 		rtRoute(a, v)
+		rtAdopt(a, v)
 	})
 }
